@@ -136,7 +136,27 @@ pub fn mechanism_facts<I: Inputs>(m: &Model<I>) -> String {
                     _ => {}
                 }
             }
-            format!("lower={lower}|upper={upper}|finite={finite}")
+            // does `upper - lower` overflow in the float type? (the generator scales [0,1] by that span)
+            let mut lo: Option<f64> = None;
+            let mut hi: Option<f64> = None;
+            for v in vals {
+                match v {
+                    Val::Greater(b) | Val::GreaterEq(b) => lo = b.to_f64_(),
+                    Val::Less(b) | Val::LessEq(b) => hi = b.to_f64_(),
+                    _ => {}
+                }
+            }
+            let span_overflow = match (lo, hi) {
+                (Some(l), Some(h)) => {
+                    if I::NAME == "f32" {
+                        ((h as f32) - (l as f32)).is_infinite()
+                    } else {
+                        (h - l).is_infinite()
+                    }
+                }
+                _ => false,
+            } as u8;
+            format!("lower={lower}|upper={upper}|finite={finite}|span_overflow={span_overflow}")
         }
         Kind::Str => {
             let case = m.sans.iter().any(|s| matches!(s, San::Lower | San::Upper)) as u8;
